@@ -179,12 +179,16 @@ class Run:
             located = re.findall(r'error(?:\[E\d+\])?: ([^\n]*)\n(?:[^\n]*\n){0,3}?\s*--> src/(verif_\w+\.rs|vspec\.rs):(\d+):\d+', o)
             progress = False
             # bottom-up per file, so that pruning one function does not shift the line numbers of the others
+            gone = {}  # file -> [(first line, last line)] removed in this attempt, in the numbering the errors refer to
             for msg, fn, line in sorted(set(located), key=lambda x: (x[1], -int(x[2]))):
                 if fn == 'vspec.rs':
                     continue
-                name = self._prune_fn(os.path.join(crate, 'src', fn), int(line))
+                if any(a <= int(line) <= b for a, b in gone.get(fn, [])):
+                    continue  # a second error inside a function that has just been pruned (its lines are gone: pruning again would hit a neighbour)
+                name, a, b = self._prune_fn(os.path.join(crate, 'src', fn), int(line))
                 if name:
                     pruned.setdefault(name, msg)
+                    gone.setdefault(fn, []).append((a, b))
                     progress = True
             if not progress:
                 errs = re.findall(r'^error[^\n]*(?:\n[^\n]*){0,6}', o, re.M)
@@ -216,7 +220,7 @@ class Run:
                     start = j
                     break
         if start is None:
-            return None
+            return None, 0, 0
         name = re.match(r'(?:pub(?:\(crate\))?\s+)?fn\s+(\w+)', lines[start]).group(1)
         end = start
         while end < len(lines) and not lines[end].startswith('}'):
@@ -226,7 +230,7 @@ class Run:
             a -= 1
         lines[a:end + 1] = ['// [pruned: %s no longer compiles against this tree]' % name]
         open(path, 'w').write('\n'.join(lines))
-        return name
+        return name, a + 1, end + 1
 
     def acquire(self, gb):
         with self.cv:
